@@ -57,6 +57,7 @@ func init() {
 }
 
 func runC14(c *Ctx, r *Report) {
+	importFoundation(c, r, "C14", "escalation-secret")
 	importFoundation(c, r, "C14", "driver-options")
 	r.Rule("C14/no-auth-steering", "the ssh argument list adds no option that steers authentication or host identity beyond the configured key / known-hosts / config file", 1)
 	checkNoAuthSteeringArgs(c, r, "C14/no-auth-steering")
@@ -64,6 +65,8 @@ func runC14(c *Ctx, r *Report) {
 	checkFreshConstructors(c, r, "C14/fresh-args", func(p string) bool { return strings.HasSuffix(p, "/transport") }, "the arguments are shared between connections, so an option applied for one connection (e.g. disabling strict host-key checking) stays in force for every later one")
 	r.Rule("C14/in-channel-auth-set", "exactly the system (ssh subprocess) and telnet transports ask for in-channel authentication; the crypto/ssh transport, which authenticates inside the protocol, never hands its password to the channel", 3)
 	checkInChannelAuthSet(c, r, "C14/in-channel-auth-set")
+	r.Rule("C14/system-files-first-wins", "the options that pick the ssh config / known-hosts file from the default locations take the first candidate that resolves, the user-level path first", 2)
+	checkSystemFilesFirstWins(c, r, "C14/system-files-first-wins")
 	r.Rule("C14/resolve-order", "ResolveFilePath uses a configured path that exists as given; the home directory is only a fallback", 1)
 	r.Rule("C14/embedded-defaults", "no embedded platform definition disables host-key checking or authentication", 15)
 	checkResolveFilePathOrder(c, r, "C14/resolve-order")
